@@ -206,6 +206,22 @@ class CallsMixin:
             return AV('iter', elem=AV('tuple', items=[
                 self._elem_of(p) for p in pos]))
         if name == 'functools.reduce':
+            # fold of a list of known length with a package function
+            f_ = pos[0] if pos else None
+            seq = pos[1] if len(pos) > 1 else None
+            init = pos[2] if len(pos) > 2 else kw.get('initial')
+            if f_ is not None and seq is not None and \
+                    seq.k in ('list', 'tuple') and seq.items is not None:
+                items = list(seq.items)
+                if init is None:
+                    if not items:
+                        return TOP()
+                    acc, items = items[0], items[1:]
+                else:
+                    acc = init
+                for it in items:
+                    acc = I.call(f_, [acc, it], {}, node, env)
+                return acc
             return TOP()
         # unmodelled external call
         I.site('M-unmodelled', node, 'unknown', name, construct=name)
@@ -1845,6 +1861,12 @@ class CallsMixin:
         a = self.as_arr(pos[0]) if pos else ARR(None)
         b = self.as_arr(pos[1]) if len(pos) > 1 else ARR(None)
         I = self.I
+        # degrees of the two operands in the named scalars / marked arrays
+        # (read by the U-weight rule: a weighted solve carries the weights in
+        # both operands)
+        self.site('U-operands', node, 'ok', '', facts={
+            'deg': [None if (x.degq or x.deg_alt) else dict(x.deg or {})
+                    for x in (a, b)]})
         for flag, operand, raw in (('overwrite_a', a, pos[0] if pos else None),
                                    ('overwrite_b', b,
                                     pos[1] if len(pos) > 1 else None)):
